@@ -198,15 +198,17 @@ def _rekey_same(used_before: bool, mi: int) -> bool:
 @obligation(prop="C03", sites=("rekey",), stubs=("FakeFS",),
             encodes=["cincoconfig.fields.secure_field.SecureField.to_basic", "cincoconfig.core.Config._keyfile"], budget={"quick": 120, "thorough": 300},
             what="key-file assignment to the root or to a sub-configuration, before or after a first "
-                 "serialisation: afterwards every secret is encrypted under the nearest ancestor that names a key "
+                 "serialisation, or after the secrets were LOADED under the previous key and left unmodified: afterwards every secret is encrypted under the nearest ancestor that names a key "
                  "file at that moment")
-def rekey_after_use(used_before: bool, assign_root: bool, assign_sub: bool, mi: int, sub_same_then_root: bool) -> bool:
+def rekey_after_use(used_before: int, assign_root: bool, assign_sub: bool, mi: int, sub_same_then_root: bool) -> bool:
     """
-    pre: 0 <= mi <= 1
+    pre: 0 <= mi <= 1 and 0 <= used_before <= 2
     post: _
     """
     if sub_same_then_root:
-        return _rekey_same(used_before, mi)
+        if used_before == 2:
+            skip("loaded-first: explored with independent assignments")
+        return _rekey_same(used_before == 1, mi)
     method = "xor" if mi == 0 else "aes"
     fs = FakeFS(files=dict(KEYS), dirs=["/k", DEFAULTK.rsplit("/", 1)[0] or "/"])
     with fs.patched():
@@ -215,8 +217,15 @@ def rekey_after_use(used_before: bool, assign_root: bool, assign_sub: bool, mi: 
         schema.sub.pw = SecureField(method=method)
         schema.sub.deep.pw = SecureField(method=method)
         cfg = schema()
-        cfg.pw, cfg.sub.pw, cfg.sub.deep.pw = "r-secret", "s-secret", "d-secret"
-        if used_before:
+        if used_before == 2:
+            # the secrets ARRIVE by loading a tree that was encrypted under the key in force so far (the default
+            # key) and are never modified afterwards
+            donor = schema()
+            donor.pw, donor.sub.pw, donor.sub.deep.pw = "r-secret", "s-secret", "d-secret"
+            cfg.load_tree(donor.to_tree())
+        else:
+            cfg.pw, cfg.sub.pw, cfg.sub.deep.pw = "r-secret", "s-secret", "d-secret"
+        if used_before == 1:
             cfg.to_tree()
         if assign_root:
             cfg._key_filename = ROOTK
